@@ -82,7 +82,8 @@ impl Scenario for DistScn {
     }
     fn setup(&self, root: usize, w: &mut World) -> (FeeHub, DG) {
         let r = &self.roots[root];
-        let mut o = HubOpts::basic(GENESIS_TIME_NS, r.grace);
+        // (roots labelled "genesis+0.3s": the epoch clock starts 300 ms after a whole second, while blocks fall on whole seconds)
+        let mut o = HubOpts::basic(GENESIS_TIME_NS + if r.label.contains("genesis+0.3s") { 300_000_000 } else { 0 }, r.grace);
         o.growth_rate = r.growth_rate;
         let h = deploy_fee_hub(w, &o);
         for u in self.users.iter().chain([MALLORY.to_string()].iter()) {
